@@ -322,7 +322,7 @@ theorem exchange_sections {o a : Pc} {ex : Exchange} (h : negotiate o a = .ok ex
   obtain ⟨g, hg, hmap⟩ := applyBundle_transceivers hb
   have hoff : ex.offerer.transceivers = pc1.transceivers.map g := by rw [hA haty]; exact hmap
   refine ⟨e_kind, e_mid, ?_, ?_, ?_, ?_, ?_⟩
-  · rw [hs0sa]; simp only; rw [hcod0]; exact hN.codecs
+  · rw [hs0sa]; simp only; rw [hcod0]; exact ⟨_, hN.codecs⟩
   · rw [hs0sa]; simp only; rw [hcod0]; exact hN.nonempty
   · rw [hs0sa]; simp only; rw [hext0]; exact hN.exts
   · refine ⟨{ t with currentDirection := some (andDir t.direction (revDir so.direction)) },
